@@ -1126,6 +1126,8 @@ def gen_cases(ctx, thorough):
     yield gen_stats_case(rng, 120, 7, False)
     yield gen_stats_case(rng, 257, 0, True)
     yield gen_stats_case(rng, 100, 100, rng.random() < 0.5)
+    yield gen_stats_case(rng, 101, 50, False)                    # just above a multiple: 3 draws of 50
+    yield gen_stats_case(rng, 103, 25, True)                     # 5 draws of 25
     if thorough:
         yield gen_stats_case(rng, 1000, 64, True)
         yield gen_stats_case(rng, 333, 1, False)
